@@ -39,8 +39,9 @@ RFrame(d) ==
   ELSE IF r <= 84 THEN B(RBatch(d))
   ELSE IF r <= 89 THEN Garbage
   ELSE IF r <= 91 THEN B(<<>>)
-  ELSE IF r <= 95 THEN Big
-  ELSE BigTail
+  ELSE IF r <= 94 THEN Big
+  ELSE IF r <= 97 THEN BigTail
+  ELSE S(E_boom(RKey(d)))
 
 Parked == {k \in Subs : gor[k] = "pending" /\ ~act[k]}
 Urgent == {k \in Subs : gor[k] = "pending" /\ act[k]}
@@ -51,7 +52,7 @@ NoDupSub(fr) == \A i, j \in DOMAIN fr.es : (i < j /\ IsSub(fr.es[i]) /\ IsSub(fr
 
 (* transitions the real server takes on its own as soon as they are possible *)
 Autonomous ==
-  \/ ServerRead \/ RespNone \/ RespBegin \/ TailClose
+  \/ ServerRead \/ RespNone \/ RespBegin \/ RespUnser \/ TailClose
   \/ \E i \in Idx : Start(i)
   \/ \E k \in Subs : GorExit(k)
   \/ (client = "closing" /\ ServerExit(FALSE))
